@@ -4,6 +4,7 @@ import (
 	"fmt"
 	"os"
 	"runtime/debug"
+	"sort"
 )
 
 type checkFn func(r *Report, p *Program, tier string)
@@ -25,9 +26,9 @@ func runCheck(prop, tier string) int {
 				r.Fatal("ENGINE", "panic", fmt.Sprintf("%v\n%s", e, debug.Stack()))
 			}
 		}()
-		p, err := Load("/repo", nil)
+		p, err := Load(repoDir(), nil)
 		if err != nil {
-			r.Fatal("LOAD", "/repo", err.Error())
+			r.Fatal("LOAD", repoDir(), err.Error())
 			return
 		}
 		r.Count("packages", len(p.Pkgs))
@@ -36,4 +37,36 @@ func runCheck(prop, tier string) int {
 	}()
 	code = r.Finish()
 	return code
+}
+
+// runAll (self-test only: `uhlint check ALL`) loads the tree once and runs every property's check on it.
+func runAll(tier string) int {
+	p, err := Load(repoDir(), nil)
+	if err != nil {
+		fmt.Fprintln(os.Stderr, err)
+		return 2
+	}
+	ids := []string{}
+	for id := range checks {
+		ids = append(ids, id)
+	}
+	sort.Strings(ids)
+	worst := 0
+	for _, id := range ids {
+		r := NewReport(id, tier)
+		func() {
+			defer func() {
+				if e := recover(); e != nil {
+					r.Fatal("ENGINE", "panic", fmt.Sprintf("%v\n%s", e, debug.Stack()))
+				}
+			}()
+			r.Count("packages", len(p.Pkgs))
+			r.Count("functions", len(p.AllFuncs))
+			checks[id](r, p, tier)
+		}()
+		if c := r.Finish(); c > worst {
+			worst = c
+		}
+	}
+	return worst
 }
